@@ -127,9 +127,9 @@ func genScenario(t *rapid.T, s *rt.Spec, d domain) *rt.Scenario {
 	fault := func(o *rt.Outcome, p float64) {
 		if faulty && prob(t, "fault", p) {
 			if prob(t, "panic", d.panics) {
-				o.K, o.PV = rt.OPanic, uniform(t, "pv", 5)
+				o.K, o.PV = rt.OPanic, uniform(t, "pv", 7)
 			} else {
-				o.K = rt.OErr
+				o.K, o.EV = rt.OErr, []int{0, 0, 0, 0, 1, 2, 3, 3}[uniform(t, "ev", 8)]
 			}
 		}
 	}
@@ -140,7 +140,7 @@ func genScenario(t *rapid.T, s *rt.Spec, d domain) *rt.Scenario {
 			switch {
 			case faulty && prob(t, "predpanic", d.predPanic):
 				scn.Pred[u] = rt.PPanic
-				scn.Out[u].PV = uniform(t, "pv", 5)
+				scn.Out[u].PV = uniform(t, "pv", 7)
 			case prob(t, "predfalse", d.predFalse):
 				scn.Pred[u] = rt.PFalse
 			}
